@@ -13,7 +13,7 @@ class Contract(object):
     def __init__(self, qual, params=None, returns=None, requires=(), ensures=None, modifies=(),
                  raises=None, let=None, inline=(), loops=None, pure_keys=None, trusted=False,
                  props=(), note='', module=None, exc_ensures=None, fresh_result=False,
-                 noexc=True, events=None, local_modes=None, var_types=None, casts=(), no_return=False, chunks=1, ghost=None, yield_spec=None, cfile=None):
+                 noexc=True, events=None, local_modes=None, var_types=None, casts=(), no_return=False, chunks=1, ghost=None, yield_spec=None, cfile=None, split_returns=False, witness=(), index_ghosts=None):
         self.qual = qual
         self.params = dict(params or {})
         self.returns = returns
@@ -39,6 +39,9 @@ class Contract(object):
         self.chunks = chunks
         self.yield_spec = yield_spec
         self.cfile = cfile
+        self.split_returns = split_returns   # postconditions are proved at every return statement separately
+        self.index_ghosts = index_ghosts   # ghost ints used as list indices (witness positions of sort / map facts)
+        self.witness = list(witness)   # hints for the vacuity guard only: a region of the input space to look for a model in
         self.ghost = dict(ghost or {})   # universally quantified specification-only parameters
         self.casts = list(casts)     # (statement head text, variable, typespec): proved, then used as hint
 
@@ -48,6 +51,7 @@ class Registry(object):
         self.contracts = {}
         self.inline = set()
         self.modules = []
+        self.global_loops = {}     # (qualified name of an inlined helper, loop ordinal) -> loop spec
 
     def add(self, c):
         if c.qual in self.contracts:
@@ -82,6 +86,11 @@ def contract(qual, **kw):
     mod = inspect.getmodule(frm[0])
     kw.setdefault('module', mod)
     return REGISTRY.add(Contract(qual, **kw))
+
+
+def helper_loop(qual, ordinal, spec):
+    """invariant of a loop inside a helper that is executed inline in its callers"""
+    REGISTRY.global_loops[(qual, ordinal)] = spec
 
 
 def inline(*quals):
